@@ -38,6 +38,8 @@ type Prog struct {
 	overlayJSON string
 
 	fieldPtrWriters map[string]map[*ssa.Function]bool
+	// NormaliseLog: what normalise.go rewrote before the analysis (empty on the reference tree)
+	NormaliseLog []string
 }
 
 func infraFail(format string, a ...any) {
@@ -55,7 +57,7 @@ func isProdPkg(path string) bool {
 }
 
 // Load type-checks ./... of dir and builds SSA for the repository packages.
-func Load(dir string, overlayDir string) *Prog {
+func Load(dir string, overlayDir string, normalise bool) *Prog {
 	overlay := map[string][]byte{}
 	overlayJSON := ""
 	if overlayDir != "" {
@@ -102,7 +104,42 @@ func Load(dir string, overlayDir string) *Prog {
 	if len(pkgs) == 0 {
 		infraFail("no packages loaded from %s", dir)
 	}
-	p := &Prog{Dir: dir, Pkgs: pkgs, ByPath: map[string]*packages.Package{}, byName: map[string]*ssa.Function{}, rend: map[*ssa.Function]*Renderer{}, Overlay: overlay, overlayJSON: overlayJSON}
+	var normLog []string
+	if normalise && os.Getenv("GOATVERIF_NO_NORMALISE") == "" {
+		clean := true
+		for _, pk := range pkgs {
+			if len(pk.Errors) > 0 || pk.IllTyped {
+				clean = false
+			}
+		}
+		if clean {
+			// calls to functions that are not in the reference inventory are expanded in place (normalise.go)
+			pkgs, overlay, normLog = Normalise(pkgs, overlay, func(ov map[string][]byte) ([]*packages.Package, bool) {
+				c2 := *cfg
+				c2.Overlay = ov
+				np, err := packages.Load(&c2, "./...")
+				if err != nil || len(np) == 0 {
+					return nil, false
+				}
+				lastLoadErrors = nil
+				for _, pk := range np {
+					lastLoadErrors = append(lastLoadErrors, pk.Errors...)
+				}
+				for _, pk := range np {
+					if len(pk.Errors) > 0 || pk.IllTyped {
+						if os.Getenv("GOATVERIF_KEEP_NORMALISED") != "" {
+							for _, e := range pk.Errors {
+								fmt.Fprintf(os.Stderr, "normalise: %v\n", e)
+							}
+						}
+						return nil, false
+					}
+				}
+				return np, true
+			})
+		}
+	}
+	p := &Prog{NormaliseLog: normLog, Dir: dir, Pkgs: pkgs, ByPath: map[string]*packages.Package{}, byName: map[string]*ssa.Function{}, rend: map[*ssa.Function]*Renderer{}, Overlay: overlay, overlayJSON: overlayJSON}
 	for _, pk := range pkgs {
 		if len(pk.Errors) > 0 || pk.IllTyped {
 			for _, e := range pk.Errors {
